@@ -215,7 +215,7 @@ def corrupt_line(rng, l):
     return ",".join(f)
 
 
-def gen_map(rng, hostile=0.0, chronological=True, mode=None, version=None, tshift=0, integer_times=False):
+def gen_map(rng, hostile=0.0, chronological=True, mode=None, version=None, tshift=0, integer_times=False, alien=True):
     mode = rng.randint(0, 3) if mode is None else mode
     version = rng.choice([14, 14, 9, 7, 3, 5, 12, 128, 6, 8]) if version is None else version
     lines = [f"osu file format v{version}", ""]
@@ -226,6 +226,26 @@ def gen_map(rng, hostile=0.0, chronological=True, mode=None, version=None, tshif
         rng.shuffle(secs)
     if rng.random() < 0.1:
         secs = [s for s in secs if rng.random() < 0.8]
+    if rng.random() < 0.2:
+        # a section that appears again later in the file, with other content (sections may repeat, in any order)
+        again = [lambda: gen_general(rng, mode, hostile), lambda: gen_editor(rng, hostile), lambda: gen_metadata(rng, hostile),
+                 lambda: gen_difficulty(rng, hostile), lambda: gen_events(rng, hostile, 20000, tshift), lambda: gen_colours(rng, hostile),
+                 lambda: gen_colours(rng, hostile), lambda: gen_timing(rng, mode, hostile, 20000, chronological, tshift + 30000, integer_times)]
+        for _ in range(rng.randint(1, 3)):
+            secs.insert(rng.randint(1, len(secs)) if secs else 0, rng.choice(again)())
+    if secs and alien and rng.random() < 0.15:
+        # records in the "wrong" section: another section's lines, and keys spelled with their section's name in front
+        # (legacy spellings such as `EditorBookmarks` / `EditorDistanceSpacing` under [General])
+        for _ in range(rng.randint(1, 4)):
+            src = rng.choice(secs)
+            dst = rng.choice(secs)
+            body = [l for l in src[1:] if l and not l.startswith("//")]
+            if not body or src is dst:
+                continue
+            l = rng.choice(body)
+            if ":" in l and rng.random() < 0.5:
+                l = src[0].strip("[]").rstrip("s") + l
+            dst.insert(rng.randint(1, len(dst)), l)
     for s in secs:
         lines += s + [""]
     return lines
